@@ -81,6 +81,15 @@ pub trait TyVisitorRef {
             + std::ops::Neg<Output = T>;
 }
 
+/// visitor that can also name the inner number type of a (nested) dual number
+pub trait TyVisitorInner {
+    type Out;
+    fn visit<T>(self, dims: &[usize]) -> Self::Out
+    where
+        T: Ty + DualNum<<T as Ty>::F>,
+        <T as DualNum<<T as Ty>::F>>::Inner: Ty<F = <T as Ty>::F>;
+}
+
 pub trait TyVisitor {
     type Out;
     fn visit<T>(self, dims: &[usize]) -> Self::Out
@@ -94,6 +103,12 @@ macro_rules! registry {
             $( TypeInfo { name: $name, kind: Kind::$kind, ndyn: $ndyn, is32: $is32, order: $order, optional: $opt, copy: $copy, field: $field } ),*
         ];
         pub fn dispatch<V: TyVisitor>(tid: usize, dims: &[usize], v: V) -> V::Out {
+            match tid {
+                $( $id => v.visit::<$t>(dims), )*
+                _ => panic!("HARNESS-BUG: unknown type id {tid}"),
+            }
+        }
+        pub fn dispatch_inner<V: TyVisitorInner>(tid: usize, dims: &[usize], v: V) -> V::Out {
             match tid {
                 $( $id => v.visit::<$t>(dims), )*
                 _ => panic!("HARNESS-BUG: unknown type id {tid}"),
